@@ -7,6 +7,7 @@ import explore, props, mirdump
 f1 = mirdump.dump("liwe")[0]
 prog = program(mir_files=(f1,), crates=("crates/liwe",), repo="/repo")
 hz = props.__dict__[sys.argv[1]]['make'](prog, 'quick')
+hz.second_pass = True; hz.wiki_refs = True
 hz.tv_every = int(sys.argv[2]) if len(sys.argv) > 2 else 1; hz.tv_phase = 0
 S = explore.explore(hz, workers=8, time_limit=1500)
 print('paths', S.paths, S.by_status, 'tv', len(S.tv))
